@@ -56,7 +56,7 @@ def comment_placement(rng):
 class C05(Base):
     ID = "C05"
     AREA = "parse"
-    LEMMA_FILES = ["FluentProofs/ParserRuntime.lean", "FluentProofs/ParserLoops.lean", "FluentProofs/ParserLines.lean", "FluentProofs/ParserLinesSim.lean", "FluentProofs/ParserLinesWF.lean"]
+    LEMMA_FILES = ["FluentProofs/ParserRuntime.lean", "FluentProofs/ParserLoops.lean", "FluentProofs/ParserLines.lean", "FluentProofs/ParserLinesSim.lean", "FluentProofs/ParserLinesWF.lean", "FluentProofs/ConstTieSyntax.lean"]
     RULE = ("comment-placement generator (16 comment line shapes incl. malformed '#x', '####', tab; all levels; before, "
             "between, inside as indented/column-0 look-alikes, after entries; LF and CRLF; adjacent to Junk) plus the C01 "
             "generator mix. Non-trivial = the source has at least one '#' line AND at least one message/term or Junk; "
